@@ -117,6 +117,12 @@ pub fn run_workload(sub: u64, acc: &mut Acc, ctx: &Ctx, _thorough: bool) {
         _ => {}
     }
     args.extend(gen_harmless_flags(&mut Rng::new(sub ^ 0xF1A6), &["-i", "-S"]));
+    if Rng::new(sub ^ 0x57A7).chance(1, 5) {
+        // statistics switch on extra bookkeeping in the printers; the trailer they add to stdout
+        // holds no file content
+        args.push("--stats".into());
+        acc.mix.inc("--stats");
+    }
     // the same lines are selected by all of these; some could match a NUL byte themselves
     args.push(["foo", "foo", "foo[^z]?", "(?s-u)foo.?", "foo\\W?"][Rng::new(sub ^ 0x9A7).below(5)].into());
     if w.via_stdin {
